@@ -78,6 +78,10 @@ blockScan:
 	}
 
 	// Add return label at correct position and reverse it.
+	// Never write outside of the block.
+	if returnLabelStart+returnLabel.EncodedSize() > len(block) {
+		return 0, ErrBufTooSmall
+	}
 	labelSlot := block[returnLabelStart : returnLabelStart+returnLabel.EncodedSize()]
 	binary.PutUvarint(labelSlot, uint64(returnLabel))
 	slices.Reverse[[]byte, byte](labelSlot)
